@@ -85,7 +85,7 @@ def signature(rec, v):
     top = next((e for e in rec["evs"][v["at"] - 1:] if e["ev"] in ("R", "W")), None)
     raises = top["r"]["v"]["e"] if top and top["r"]["rk"] == "err" else ""
     if "opt" in rec:
-        dev = v["dev"] if v["pred"] == "match" else ""
+        dev = v["dev"] if v["pred"].startswith("match") else ""
         sig = {"part": "opt", "clause": v["v"], "dev": dev}
         if not dev:
             sig.update({"cls": rec["opt"][-1]["cls"]["name"],
@@ -135,6 +135,8 @@ def _tlaps(out, wd):
     shutil.rmtree(d, ignore_errors=True)
     if not m:
         raise kit.MachineryError("C05: tlapm did not prove C05_MemoAbs:\n" + txt[-1500:])
+    out.extra["obligations"] = int(m.group(1))
+    out.extra["discharged"] = int(m.group(1))
     out.extra["tlaps"] = {"module": "C05_MemoAbs", "obligations": int(m.group(1)),
                           "discharged": int(m.group(1)), "wall_s": round(time.time() - t0, 1),
                           "theorems": ["Safety: Spec => [](Inv /\\ AtMostOnce)", "Transparency"]}
@@ -146,7 +148,7 @@ def _model_stage(tier, seed, out):
                              ("C05_Gen", "C05_Gen_thoroughA", {}),
                              ("C05_Gen", "C05_Gen_thorough3", {}),
                              ("C05_Gen", "C05_Gen_sim",
-                              {"simulate": "num=600", "depth": 8, "seed": seed})]}[tier]
+                              {"simulate": "num=400", "depth": 8, "seed": seed})]}[tier]
     opt_cfgs = {"quick": [("C05_OptGen", "C05_OptGen_quick1", {}),
                           ("C05_OptGen", "C05_OptGen_quick2", {})],
                 "thorough": [("C05_OptGen", "C05_OptGen_thorough1", {}),
@@ -240,6 +242,26 @@ def _judge(recs, wd, tag):
     return kit.judge_shards("C05_Judge", "C05_Judge", shards)
 
 
+def _tampered(recs, nid):
+    """Two corrupted copies of a recorded trace that the real code got right."""
+    import copy
+    src = next((r for r in recs if "opt" not in r and r["mk"] == {"m": "ident", "scope": "all"}
+                and len(r["evs"]) >= 3 and r["evs"][-1]["ev"] == "R"
+                and r["evs"][-1]["r"] == r["evs"][-1]["f"] and r["evs"][-1]["r"]["rk"] == "tree"
+                and sum(1 for e in r["evs"] if e["ev"] == "R") == 1), None)
+    if src is None:
+        return []
+    twice = copy.deepcopy(src)
+    twice["id"] = nid
+    twice["evs"] = twice["evs"] + copy.deepcopy(twice["evs"])      # every handler runs again
+    wrong = copy.deepcopy(src)
+    wrong["id"] = nid + 1
+    wrong["evs"][-1]["r"] = {"rk": "tree", "i": wrong["evs"][-1]["e"]}   # the input, unrenamed
+    if wrong["evs"][-1]["r"] == wrong["evs"][-1]["f"]:
+        return [(twice, "computed-twice")]
+    return [(twice, "computed-twice"), (wrong, "not-transparent")]
+
+
 def run(tier, seed, out):
     import time
     wd = kit.fresh_workdir("C05")
@@ -288,17 +310,31 @@ def run(tier, seed, out):
     ncalls = sum(1 for r in recs for e in r["evs"] if e["ev"] in ("R", "W"))
     out.evaluations += 2 * ncalls
 
-    verdicts, st, tr = _judge(recs, wd, "c05")
+    # judge self-check: two tampered copies of a good recorded trace must be rejected
+    # with the right clause (a judge that accepts everything is a machinery failure)
+    tampered = _tampered(recs, nid)
+    verdicts, st, tr = _judge(recs + [t for t, _ in tampered], wd, "c05")
     out.states += st
     out.transitions += tr
     out.traces += len(recs)
-    if len(verdicts) != len(recs):
+    if len(verdicts) != len(recs) + len(tampered):
         raise kit.MachineryError(f"C05 judge: {len(verdicts)} verdicts for {len(recs)} traces")
+    want = {t["id"]: clause for t, clause in tampered}
+    got = {v["id"]: v["v"] for v in verdicts if v["id"] in want}
+    if got != want:
+        raise kit.MachineryError(f"C05 judge self-check: tampered traces judged {got}, expected {want}")
+    out.extra["judge_selfcheck"] = {"tampered_traces_rejected": len(tampered)}
+    verdicts = [v for v in verdicts if v["id"] not in want]
     byid = {r["id"]: r for r in recs}
     fdrift = 0
     per_clause = {}
+    drift_kinds = {}
     for v in verdicts:
         fdrift += v.get("fd", 0)
+        if v.get("fd", 0):
+            mk = byid[v["id"]]["mk"]
+            kk = mk["m"] + "/" + mk.get("scope", "")
+            drift_kinds[kk] = drift_kinds.get(kk, 0) + 1
         if v["v"] == "OK":
             continue
         if v["v"] == "SKIP":
@@ -313,6 +349,7 @@ def run(tier, seed, out):
     out.drift += fdrift
     out.skipped += refused
     out.extra["failing_verdicts_by_signature"] = per_clause
+    out.extra["counterpart_vs_meaning_drift_by_kind"] = drift_kinds
     for r in recs:
         out.note_case({"mk": r["mk"], "opt": r.get("opt"), "h": detail[r["id"]]["case"]["h"]},
                       nontrivial=len(r["evs"]) > 3)
